@@ -70,6 +70,24 @@ def check_helpers(ctx, oid="C03.4"):
                     oi = ival.ivals(opnd, facts)
                     R.check(oid, "REGION", fi, "%s refuses %s outside [0, p-1]" % (name, opnd.args[0]), ival.subset(oi, 0, Pp - 1),
                             "%s accepts operand %s outside [0, p-1]" % (name, opnd.args[0]))
+        # ... and accepts every field element: the operand region is exactly [0, p-1] (a divisor may additionally exclude 0).
+        # A zero numerator is the slope of a chord through two points with equal y -- refusing it refuses valid scalars.
+        acc = {}
+        for e0 in rets:
+            for facts, v in _branches(e0.value, rules.all_facts(e0)):
+                for opnd in (x, y):
+                    acc.setdefault(opnd.args[0], []).extend(ival.ivals(opnd, facts) or [])
+        for opnd in (x, y):
+            lo_need = 1 if (name == "div_mod_p" and opnd is y) else 0
+            ivs_ = sorted((a_, b_) for a_, b_ in acc.get(opnd.args[0], []) if a_ is not None and b_ is not None)
+            cur, covered = lo_need, False
+            for a_, b_ in ivs_:
+                if a_ <= cur:
+                    cur = max(cur, b_ + 1)
+            covered = cur > Pp - 1
+            R.check(oid, "REGION", fi, "%s accepts every %s in [%d, p-1]" % (name, opnd.args[0], lo_need), covered,
+                    "%s refuses some field elements as operand %s: accepted set %s" % (name, opnd.args[0], _ivs(ivs_)),
+                    example="operand 0 (the numerator of the slope through two distinct points with equal y)")
         R.check(oid, "TERM-EQ", fi, "%s returns" % name, okc, "%s has no return" % name)
         bad = [e for e in s.raises() if e.exc not in ("ValueError", "TypeError")]
         R.check(oid, "EXC", fi, "%s refuses with ValueError" % name, not bad, "%s raises %s" % (name, [e.exc for e in bad]))
